@@ -29,9 +29,10 @@ class Block:
     """one macro instance in the arena"""
 
     def __init__(self, key: str, fj: str, v: Sequence[str], n: int = 0, m: int = 0, sh: int = 0, c: int = 0,
-                 branches: Sequence[str] = (), name: str = "", B: int = 0):
+                 branches: Sequence[str] = (), name: str = "", B: int = 0, js: Optional[dict] = None):
         self.key, self.fj, self.v, self.n, self.m, self.sh, self.c = key, fj, list(v), n, m, sh, c
         self.B = B          # digit base of the macro's namespace (0: the arena's)
+        self.js = dict(js or {})   # fields of the step record that differ from / add to the text's parameters
         self.branches = list(branches)
         self.name = name or key
 
@@ -45,7 +46,10 @@ class Block:
 
     def step_json(self) -> dict:
         from fjv.c02 import jint
-        return {"k": self.key, "n": self.n, "m": self.m, "sh": self.sh, "c": jint(self.c), "v": self.v}
+        d = {"k": self.key, "n": self.n, "m": self.m, "sh": self.sh, "c": jint(self.c), "v": self.v}
+        for k, v in self.js.items():
+            d[k] = jint(v) if k == "c" else v
+        return d
 
 
 class StopRun(Exception):
@@ -60,6 +64,12 @@ class Arena:
         self.extra_names: List[str] = []      # labels of extra declarations (not hidden library state)
         self.var_kind: Dict[str, str] = {}    # variable -> "hex" / "bit" (default: the arena's kind)
         self.var_nd: Dict[str, int] = {}      # variable -> number of digits (default: ndigits)
+        # kinds: "hex" (4 data bits per op), "bit" (1), "byte" (8: a buffer of cells), "flipbyte" (the low 8 bits of
+        # the FLIP word of every op: a second view of a buffer)
+        self.var_at: Dict[str, str] = {}      # variable -> label it lives at (not declared by the arena: library cells, views)
+        self.var_ptr: Dict[str, str] = {}     # pointer variable -> label of the buffer it points into (value = cell index)
+        self.no_restore: Tuple[str, ...] = ()  # label prefixes of library state that is carried over, not restored
+        self.rest_check = None                # optional callable(dev) -> bool: library invariant at every marker
         self.dir = Path(tempfile.mkdtemp(prefix="fjv_arena_"))
         self.labels: Dict[str, int] = {}
         self.asm_seconds = 0.0
@@ -73,8 +83,10 @@ class Arena:
         for i, b in enumerate(self.blocks):
             lines.append(b.render(i))
         for v in self.vars:
+            if v in self.var_at:
+                continue
             vk = self.var_kind.get(v, self.kind)
-            lines.append(f"{v}: {'hex.vec' if vk == 'hex' else 'bit.vec'} {self.var_nd.get(v, self.nd)}")
+            lines.append(f"{v}: {'bit.vec' if vk == 'bit' else 'hex.vec'} {self.var_nd.get(v, self.nd)}")
         lines += ["mflag: hex.hex", "brvar: hex.hex"]
         lines.append(self.extra_decl)
         return "\n".join(lines) + "\n"
@@ -93,8 +105,10 @@ class Arena:
         self.asm_seconds = time.time() - t0
         self.labels = load_debugging_labels(self.dir / "arena.fjd")
         glob = {k: v for k, v in self.labels.items() if "---" not in k and ":" not in k}
-        mine = set(self.vars) | {"again", "dispatch", "mflag", "brvar"} | set(self.extra_names) | {k for k in glob if k.startswith(("blk_", "br_"))}
-        self.hidden_labels = sorted((v, k) for k, v in glob.items() if k not in mine and k != "stl.IO" and not k.startswith("_"))
+        mine = set(self.vars) | set(self.var_at.values()) | {"again", "dispatch", "mflag", "brvar"} | set(self.extra_names) | {k for k in glob if k.startswith(("blk_", "br_"))}
+        self.hidden_labels = sorted((v, k) for k, v in glob.items() if k not in mine and k != "stl.IO" and not k.startswith("_")
+                                    and not k.startswith(self.no_restore))
+        self.flip_views = {self.var_at.get(v, v) for v in self.vars if self.var_kind.get(v) == "flipbyte"}
 
     def close(self) -> None:
         import shutil
@@ -154,31 +168,63 @@ class Arena:
 
             # -- memory helpers
             def geom(self, name: str):
-                db = 4 if arena.var_kind.get(name, arena.kind) == "hex" else 1
+                k = arena.var_kind.get(name, arena.kind)
+                db = {"hex": 4, "bit": 1, "byte": 8, "flipbyte": 8}[k]
                 return db, (1 << db) - 1, arena.var_nd.get(name, arena.nd)
 
-            def get_var(self, name: str) -> int:
-                base = op_word(lab[name])
+            def base(self, name: str) -> int:
+                return op_word(lab[arena.var_at.get(name, name)])
+
+            def get_raw(self, name: str) -> int:
+                base = self.base(name)
                 db, dm, nd = self.geom(name)
                 v = 0
+                if arena.var_kind.get(name) == "flipbyte":
+                    for i in range(nd):
+                        v |= (self.mem.read_word(base + 2 * i) & dm) << (db * i)
+                    return v
                 for i in range(nd):
                     v |= ((self.mem.read_word(base + 2 * i + 1) >> sh) & dm) << (db * i)
                 return v
 
+            def get_var(self, name: str) -> int:
+                raw = self.get_raw(name)
+                region = arena.var_ptr.get(name)
+                if region is None:
+                    return raw
+                # a pointer: its value is the (signed) index of the cell of `region` it points to
+                delta = (raw - lab[region]) % (1 << w)
+                if delta % (2 * w):
+                    return (1 << 300) + raw            # not cell-aligned: equal to no expected value
+                idx = delta // (2 * w)
+                ncell = (1 << w) // (2 * w)
+                return idx - ncell if idx >= ncell // 2 else idx
+
             def clean_var(self, name: str) -> bool:
                 """at rest a variable op is exactly  0 ; value << #w  (hex) / value * dw (bit)"""
-                base = op_word(lab[name])
+                if arena.var_kind.get(name) == "flipbyte":
+                    return True
+                base = self.base(name)
                 db, dm, nd = self.geom(name)
+                fmask = 0xFF if arena.var_at.get(name, name) in arena.flip_views else 0
                 for i in range(nd):
-                    if self.mem.read_word(base + 2 * i) != 0:
+                    if self.mem.read_word(base + 2 * i) & ~fmask:
                         return False
                     if self.mem.read_word(base + 2 * i + 1) & ~(dm << sh):
                         return False
                 return True
 
             def set_var(self, name: str, value: int):
-                base = op_word(lab[name])
+                base = self.base(name)
                 db, dm, nd = self.geom(name)
+                region = arena.var_ptr.get(name)
+                if region is not None:
+                    value = (lab[region] + value * 2 * w) % (1 << w)
+                if arena.var_kind.get(name) == "flipbyte":
+                    for i in range(nd):
+                        a = base + 2 * i
+                        self.mem.write_word(a, (self.mem.read_word(a) & ~dm) | ((value >> (db * i)) & dm))
+                    return
                 for i in range(nd):
                     self.mem.write_word(base + 2 * i + 1, ((value >> (db * i)) & dm) << sh)
 
@@ -222,6 +268,8 @@ class Arena:
                     hid = self.hidden()
                     mask_ix = [2 * k + 1 for k, (_a, n) in enumerate(arena.hidden_labels) if n in ("hex.add.dst", "hex.sub.dst")]
                     hid_ok = all(h == r or (i in mask_ix and (h ^ r) == (1 << (sh + 8))) for i, (h, r) in enumerate(zip(hid, self.rest)))
+                    if arena.rest_check is not None and not arena.rest_check(self):
+                        hid_ok = False
                     self.cur.append({"vals": {v: self.get_var(v) for v in arena.vars},
                                      "clean": all(self.clean_var(v) for v in arena.vars),
                                      "addc": self.carry("hex.add.dst"), "subc": self.carry("hex.sub.dst"),
